@@ -15,7 +15,8 @@
                     a group body) has dropped -- rq_wf_lax is what holds modulo F1;
             C16-F6  a function that mentions its relation parameter twice makes the Lowerer lower one PL node twice;
             C16-F7  a column excluded by `select !{..}` in a joined sub-pipeline is still bound from outside;
-            C16-F8  a top-level scalar `let` mentioned twice is inlined with one PL node id (same root cause as F6).
+            C16-F8  a top-level scalar `let` mentioned twice is inlined with one PL node id (same root cause as F6);
+            C16-F9  a `select` in a group body drops the group key that the lineage (hence the closing Select) keeps.
      fixed  C16-F2 (8f24a64), C16-F3 (7911778: lookup_cid reports an error instead of panicking),
             C16-F4 (3b8ac37: create_a_table_instance keeps duplicate columns -- Model/Lowerer.v follows, and
             inline_redirects_every_select_id below is the statement that was false of the old model),
@@ -452,3 +453,17 @@ Example c16_ex_push_select :
   = (Some [(RWildcard, 0); (RSingle (Some s_c), 7); (RSingle (Some s_d), 8); (RSingle (Some s_c), 9)], None, None,
      Some [(RSingle (Some s_c), 9)]).
 Proof. vm_compute. reflexivity. Qed.
+
+(* C16-F9  `from t | group g (sort {-a} | take 1 | select {b, c})` : the select of the group body drops the key (id 0), the closing
+   Select computed from the lineage names it again.  The loose machine reproduces the run (with the frame computed by
+   push_select_m); the strict machine refuses the last operation, the OEndTable. *)
+Definition finding_f9 : rq :=
+  (mkRq [(mkTable 0 None (mkRel (KExternRef [[116]]) [(RSingle (Some [103])); (RSingle (Some [97])); (RSingle (Some [98])); (RSingle (Some [99])); RWildcard]))] (mkRel (KPipeline [(TFrom (mkTRef 0 [((RSingle (Some [103])), 0); ((RSingle (Some [97])), 1); ((RSingle (Some [98])), 2); ((RSingle (Some [99])), 3); (RWildcard, 4)] (Some [116]))); (TTake (None, (Some ELit)) [0] [(Desc, 1)]); (TSelect [2; 3]); (TSelect [0; 2; 3])]) [(RSingle (Some [103])); (RSingle (Some [98])); (RSingle (Some [99]))])).
+
+Definition f9_trace : list (lop * list obs) :=
+  [(LOp (ODeclExtern [[116]] [(RSingle (Some [103])); (RSingle (Some [97])); (RSingle (Some [98])); (RSingle (Some [99])); RWildcard]), [(BTable 0)]); (LOp (OBegin false 116 (Some [116]) (SExisting 0)), [(BDepth 1); (BInput 116 [((RSingle (Some [103])), 0); ((RSingle (Some [97])), 1); ((RSingle (Some [98])), 2); ((RSingle (Some [99])), 3); (RWildcard, 4)]); (BTop (TFrom (mkTRef 0 [((RSingle (Some [103])), 0); ((RSingle (Some [97])), 1); ((RSingle (Some [98])), 2); ((RSingle (Some [99])), 3); (RWildcard, 4)] (Some [116]))))]); (LOp (ODeclare 118 (ERef 0) None false true), [(BCid 118 0)]); (LOp (ODeclare 148 (ERef 1) None false true), [(BCid 148 1)]); (LOp (OPush (TTake (None, (Some ELit)) [0] [(Desc, 1)])), [(BTop (TTake (None, (Some ELit)) [0] [(Desc, 1)]))]); (LOp (ODeclare 118 ELit None false false), [(BCid 118 0)]); (LOp (ODeclare 148 ELit None false false), [(BCid 148 1)]); (LOp (ODeclare 154 (ERef 2) None false true), [(BCid 154 2)]); (LOp (ODeclare 155 (ERef 3) None false true), [(BCid 155 3)]); (LOp (OPush (TSelect [2; 3])), [(BTop (TSelect [2; 3]))]); (LEndTable (Some [109;97;105;110]) [116] [(LSingle (Some [103]) 118 None); (LSingle (Some [98]) 154 None); (LSingle (Some [99]) 155 None)], [(BFrame [((RSingle (Some [103])), 0); ((RSingle (Some [98])), 2); ((RSingle (Some [99])), 3)]); (BTable 1); (BDepth 0)])].
+
+Example c16_finding_f9_group_select_drops_key :
+  rq_diags finding_f9 = [DNotVisible 1 SSelect 0]
+  /\ replay_l_verdict false f9_trace finding_f9 = 0 /\ replay_l_verdict true f9_trace finding_f9 = 11.
+Proof. vm_compute. auto. Qed.
